@@ -11,6 +11,7 @@ ASGI engine run here unchanged as long as they do not reach for ASGI scopes.
 import asyncio
 import re
 import struct
+import zlib
 
 from vf.sima import SimA
 from vf.simbase import Ticket, PATH
@@ -20,11 +21,11 @@ _STATUS = re.compile(rb'^HTTP/1\.[01] (\d{3})(?: [^\r\n]*)?$')
 _HEADER = re.compile(rb'^[!#$%&\'*+\-.^_`|~0-9A-Za-z]+:[ \t]*[^\r\n]*$')
 
 
-def enc_frame(op, payload, fin=True):
+def enc_frame(op, payload, fin=True, rsv1=False):
     """One client->server frame (masked, as RFC 6455 requires of clients;
     the masking key is all zeros so that large payloads stay cheap)."""
     n = len(payload)
-    hdr = bytes([(0x80 if fin else 0) | op])
+    hdr = bytes([(0x80 if fin else 0) | (0x40 if rsv1 else 0) | op])
     if n < 126:
         hdr += bytes([0x80 | n])
     elif n < 65536:
@@ -181,6 +182,13 @@ class Conn:
                     'sec-websocket-accept' not in hd:
                 self.t.proto.append('101 without a WebSocket handshake '
                                     'answer: %r' % (self.headers,))
+            ext = hd.get('sec-websocket-extensions', '')
+            if ext:
+                if not self.ws.offered_deflate:
+                    self.t.proto.append('extension %r accepted that was not '
+                                        'offered' % ext)
+                else:
+                    self.ws._negotiated(ext)
             self.ws._accepted()
             return
         if self.t.info.get('method') == 'HEAD' or self.status in (204, 304):
@@ -276,7 +284,11 @@ class Conn:
             if len(b) < 2:
                 return
             fin, op = b[0] & 0x80, b[0] & 0x0f
-            if b[0] & 0x70:
+            rsv1 = bool(b[0] & 0x40)
+            if b[0] & 0x30 or (rsv1 and not (self.ws.deflate and
+                                             op in (1, 2))):
+                # (RSV1 marks a compressed message - on its first frame and
+                # only when permessage-deflate was negotiated)
                 self.ws.proto.append('reserved bits set in a frame header')
             if b[1] & 0x80:
                 self.ws.proto.append('server frame is masked')
@@ -298,7 +310,7 @@ class Conn:
                 return
             payload = b[off:off + n]
             self.buf = b[off + n:]
-            self.ws._on_server_frame(bool(fin), op, payload)
+            self.ws._on_server_frame(bool(fin), op, payload, rsv1)
 
 
 class WsConnH:
@@ -324,6 +336,44 @@ class WsConnH:
         self._frag = None
         self.first_read_clk = None
         self.first_read_t = None
+        # permessage-deflate (RFC 7692), offered when the simulator says so
+        self.offered_deflate = bool(getattr(sim, 'ws_offer_deflate', False))
+        self.deflate = False
+        self.compressed_in = self.compressed_out = 0
+
+    def _negotiated(self, ext):
+        params = [x.strip() for x in ext.split(';')]
+        if params[0] != 'permessage-deflate':
+            self.proto.append('unknown extension %r' % ext)
+            return
+        self.deflate = True
+        sbits = cbits = 15
+        self._s_nct = self._c_nct = False
+        for prm in params[1:]:
+            k, _, v = prm.partition('=')
+            if k == 'server_no_context_takeover':
+                self._s_nct = True
+            elif k == 'client_no_context_takeover':
+                self._c_nct = True
+            elif k == 'server_max_window_bits':
+                sbits = int(v or 15)
+            elif k == 'client_max_window_bits':
+                cbits = int(v or 15)
+            else:
+                self.proto.append('unknown extension parameter %r' % prm)
+        self._sbits, self._cbits = sbits, cbits
+        self._inf = zlib.decompressobj(-sbits)
+        self._def = zlib.compressobj(wbits=-max(9, cbits))
+        self.sim.deflate_negotiated = getattr(
+            self.sim, 'deflate_negotiated', 0) + 1
+
+    def _deflated(self, data):
+        """one outgoing message, compressed (RFC 7692 section 7.2.1)"""
+        out = self._def.compress(data) + self._def.flush(zlib.Z_SYNC_FLUSH)
+        if self._c_nct:
+            self._def = zlib.compressobj(wbits=-max(9, self._cbits))
+        self.compressed_out += 1
+        return out[:-4] if out.endswith(b'\x00\x00\xff\xff') else out
 
     # -- what the scenarios do
     @property
@@ -343,10 +393,14 @@ class WsConnH:
                           'frame': frame})
         if self.conn is None or self.client_closed:
             return
-        if isinstance(frame, (bytes, bytearray)):
-            self.conn.feed(enc_frame(2, bytes(frame)))
+        op, data = (2, bytes(frame)) if isinstance(
+            frame, (bytes, bytearray)) else (1, frame.encode('utf-8'))
+        if self.deflate and len(self.sent) % 3 != 0:
+            # (a client may send any message uncompressed; two in three
+            # are compressed)
+            self.conn.feed(enc_frame(op, self._deflated(data), rsv1=True))
         else:
-            self.conn.feed(enc_frame(1, frame.encode('utf-8')))
+            self.conn.feed(enc_frame(op, data))
 
     def close(self):
         """The client closes: Close frame, then the connection goes away."""
@@ -360,6 +414,27 @@ class WsConnH:
 
     def vanish(self):
         self.vanished = True
+
+    def stall(self, dur):
+        """(see WsConnT.stall) The transport stops taking bytes for dur:
+        aiohttp is told through pause_writing() / resume_writing(), tornado's
+        stream gets EWOULDBLOCK from its descriptor until then."""
+        if self.conn is None:
+            return
+        proto, loop = self.conn.proto, self.sim.loop
+        stream = getattr(proto, 'stream', None)
+        if stream is not None:
+            stream.stall_until = float('inf')
+
+            def unstall():
+                # (cleared by the timer itself: comparing clock readings
+                # that were added up differently is off by an ulp)
+                stream.stall_until = 0
+                loop.fd_writable(stream._fd)
+            loop.call_later(dur, unstall)
+        else:
+            proto.pause_writing()
+            loop.call_later(dur, proto.resume_writing)
 
     def texts(self):
         return [f['frame'] for f in self.frames]
@@ -386,7 +461,7 @@ class WsConnH:
             if self.on_close is not None:
                 self.on_close(self)
 
-    def _on_server_frame(self, fin, op, payload):
+    def _on_server_frame(self, fin, op, payload, rsv1=False):
         if self.server_closed and op != 8:
             self.proto.append('frame (opcode %d) after the Close frame' % op)
         if op == 0:
@@ -395,13 +470,24 @@ class WsConnH:
                 return
             self._frag[1] += payload
             if fin:
-                op, payload = self._frag[0], bytes(self._frag[1])
+                op, payload, rsv1 = self._frag[0], bytes(self._frag[1]), \
+                    self._frag[2]
                 self._frag = None
             else:
                 return
         elif op in (1, 2) and not fin:
-            self._frag = [op, bytearray(payload)]
+            self._frag = [op, bytearray(payload), rsv1]
             return
+        if rsv1 and op in (1, 2):
+            try:
+                payload = self._inf.decompress(payload + b'\x00\x00\xff\xff')
+            except zlib.error as e:
+                self.proto.append('compressed message does not inflate: %s'
+                                  % e)
+                return
+            if self._s_nct:
+                self._inf = zlib.decompressobj(-self._sbits)
+            self.compressed_in += 1
         if op == 1:
             try:
                 data = payload.decode('utf-8')
@@ -566,6 +652,9 @@ class SimH(SimA):
         if ws is not None:
             hs.append(('Sec-WebSocket-Key', WS_KEY))
             hs.append(('Sec-WebSocket-Version', '13'))
+            if ws.offered_deflate:
+                hs.append(('Sec-WebSocket-Extensions',
+                           'permessage-deflate; client_max_window_bits'))
         for k, v in (headers or {}).items():
             if v is None:
                 hs = [h for h in hs if h[0].lower() != k.lower()]
